@@ -1,7 +1,7 @@
 """Configuration of the C05 check (see lib/props.py)."""
 P = {'id': 'C05',
  'level': 'proof',
- 'theorems': ['ptrie_refines_set', 'ptrie_reachable_related', 'contains_is_membership', 'len_is_card', 'insert_adds_exactly', 'remove_removes_exactly', 'reinsertion_idempotent', 'remove_then_reinsert', 'unlink_preserves_others', 'fsa_accepts_is_contains', 'fsa_agrees', 'walk_injective', 's_longest_prefix_spec', 'keys_enumerates', 'keys_no_duplicates', 'prefix_query_exact', 'prefix_no_duplicates', 'walk_depth_bound', 'louds_refines_set', 'sparse_refines_set', 'sparse_remove_refuted', 'louds_remove_refuted', 'louds_fsa_refuted', 'louds_long_key_refuted', 'critbit_stub_refuted', 'clone_preserves', 'ptrie_refines_set_with_clone', 'fsa_longest_prefix_correct', 'fsa_generic_is_patricia', 'da_refines_set', 'da_reachable_related', 'da_insert_adds_exactly', 'da_relocation_preserves_keys', 'da_lookup_is_view', 'da_contains_is_lookup', 'da_remove_refuted', 'da_keys_enumerates', 'da_prefix_query_exact', 'da_keys_no_duplicates', 'da_clone_preserves', 'da_refines_set_with_clone'],
+ 'theorems': ['ptrie_refines_set', 'ptrie_reachable_related', 'contains_is_membership', 'len_is_card', 'insert_adds_exactly', 'remove_removes_exactly', 'reinsertion_idempotent', 'remove_then_reinsert', 'unlink_preserves_others', 'fsa_accepts_is_contains', 'fsa_agrees', 'walk_injective', 's_longest_prefix_spec', 'keys_enumerates', 'keys_no_duplicates', 'prefix_query_exact', 'prefix_no_duplicates', 'walk_depth_bound', 'louds_refines_set', 'sparse_refines_set', 'sparse_remove_refuted', 'louds_remove_refuted', 'louds_fsa_refuted', 'louds_long_key_refuted', 'critbit_stub_refuted', 'clone_preserves', 'ptrie_refines_set_with_clone', 'fsa_longest_prefix_correct', 'fsa_generic_is_patricia', 'da_refines_set', 'da_reachable_related', 'da_insert_adds_exactly', 'da_relocation_preserves_keys', 'da_lookup_is_view', 'da_contains_is_lookup', 'da_remove_refuted', 'da_keys_enumerates', 'da_prefix_query_exact', 'da_keys_no_duplicates', 'da_clone_preserves', 'da_refines_set_with_clone', 'cs_refines_set', 'cs_reachable_related', 'cs_insert_adds_exactly', 'cs_keys_enumerates', 'cs_prefix_query_exact', 'cs_keys_no_duplicates', 'cs_clone_preserves', 'cs_remove_refuted'],
  'trusted': ['modelled (M+S): src/fsa/zipora_trie.rs Patricia storage as written, i.e. an uncompressed 256-ary trie over a node vector '
              '(insert_patricia_actual, contains_patricia_actual, remove_patricia_actual incl. the bottom-up cleanup, keys_patricia_actual / '
              'collect_keys_patricia_recursive, keys_with_prefix_patricia_actual, impl Trie::insert num_keys, ZiporaTrie::remove, impl FiniteStateAutomaton '
